@@ -74,3 +74,24 @@ Example C01_served_while_fresh :
   decide_hit ex_req ex_entry (946684900 * second) = DRevalidate false /\
   (exists d, raw_time (hget (bs "Date") (e_hdr ex_entry)) = Some d) /\ e_status ex_entry <> 304.
 Proof. repeat split; try (vm_compute; reflexivity); [eexists; vm_compute; reflexivity|discriminate]. Qed.
+
+(* ---------- history level: the instants ages are computed from ---------- *)
+From HC.Proofs Require Import ProvProofs TimeProofs.
+
+(* After any sequential history from an empty store (any requests, origin script, timing), every stored entry
+   carries as request / response instants the start / end of one origin call of that history.  C01_local
+   measures ages from these two fields: they cannot be anything but the true instants of an exchange with the
+   origin (and, by C03_history_provenance, for the same URL key). *)
+Theorem C01_history_times : forall cfg h t0 script k e,
+  get_entry (w_store (final_world cfg h (init_world t0 script))) k = Some e ->
+  exists idx q rep,
+    In (EvCall idx q (e_req_at e) (e_recv_at e) rep)
+       (flat_map (fun o => x_events o ++ x_bg_events o) (run_history cfg h (init_world t0 script))).
+Proof.
+  intros cfg h t0 script k e H.
+  assert (HI : InvT (flat_map (fun o => x_events o ++ x_bg_events o) (run_history cfg h (init_world t0 script))) (w_store (init_world t0 script))).
+  { intros k' e' He. discriminate. }
+  destruct (history_safeT _ cfg h (init_world t0 script) HI (incl_refl _) k e H) as (u & idx & q & rep & Hin & _).
+  exists idx, q, rep. exact Hin.
+Qed.
+Print Assumptions C01_history_times.
